@@ -300,7 +300,10 @@ class _FunctionCallParser(_BaseFunctionParser):
         kwargs = []
         for kw in self.ast.keywords:
             kw_value = self._get_source_range(kw.value)
-            assert kw.arg
+            if kw.arg is None:
+                # ``**mapping``: kept last, CallInfo.read turns it into keywords_arg
+                args.append("**" + kw_value)
+                continue
             kwargs.append((kw.arg, kw_value))
         if self.is_called_as_a_method():
             instance = self.call[: self.call.rindex(".", 0, self.first_parens)]
